@@ -143,8 +143,10 @@ func (rep *Report) Record(spec *CheckSpec, p *Program, r *Result) {
 		sort.Strings(fk)
 		shape += "#" + strings.Join(fk, ",") + "#" + r.Inter
 		rep.shapeSet[hash64(shape)] = true
-		if len(rep.Samples) < 3 && rep.Evaluations%7 == 3 || len(rep.Samples) == 0 {
-			rep.Samples = append(rep.Samples, json.RawMessage(mustJSON(p)))
+		if len(rep.Samples) < 3 && (rep.Evaluations%7 == 3 || len(rep.Samples) == 0) {
+			if b := mustJSON(p); len(b) < 12000 {
+				rep.Samples = append(rep.Samples, json.RawMessage(b))
+			}
 		}
 	}
 }
